@@ -157,6 +157,11 @@ def r3_fast_path(repo: Repo, rep):
                 bad.append(dump(a)[:60])
         rep.check(R, not bad, fw.site(), fw.fq, "saved tensors are the Function's own inputs (or index views of them)", f"derived tensors saved: {bad}", str(bad))
         rep.check(R, len(args) == len(inputs), fw.site(), fw.fq, f"all {len(inputs)} inputs saved for backward", f"{len(args)} saved", f"{len(args)} saved")
+    gname = bw.params[1]
+    picked = sorted({dump(n)[:40] for n in ast.walk(bw.node) if isinstance(n, ast.Subscript) and isinstance(n.value, ast.Name) and n.value.id == gname
+                     and not isinstance(n.slice, (ast.Slice, ast.Tuple)) and not (isinstance(n.slice, ast.Constant) and n.slice.value is Ellipsis)})
+    rep.check(R, not picked, bw.site(), bw.fq, "the upstream gradient of every copy along the first axis contributes (it is not identical along that axis)",
+              f"a single copy is selected: {picked}", f"copy selected: {picked}")
     for p in paths(bw.node):
         if p.ret is RAISE or p.ret is None:
             continue
@@ -269,6 +274,23 @@ def r4_branch_cache(repo: Repo, rep):
             rep.check(R, not calls, fb.site(), fb.fq, "same iteration: the cached branch output is reused", str(calls), str(calls))
         else:
             rep.undecided(R, fb.site(), fb.fq, "guard `iteration_num != function_set.current_iteration_num`", "not found")
+
+
+def r4b_fix_always(repo: Repo, rep):
+    R = "R-C09-4"
+    dn = repo.cls(f"{DO}.deeponet.DeepONet")
+    fi = dn.methods.get("fix_branch_input")
+    if fi is None:
+        raise AnalysisError("DeepONet.fix_branch_input vanished")
+    rep.saw(fi)
+    for p in paths(fi.node):
+        if p.ret is RAISE:
+            continue
+        calls = [e.value for e in p.events if e.kind == "call" and isinstance(e.value, ast.Call) and dump(e.value.func) == "self.branch.fix_input"]
+        skip = [dump(g)[:60] + ("" if pol else " is false") for g, pol, k in p.guards if k == "if"]
+        rep.check(R, len(calls) == 1 and calls[0].args and dump(calls[0].args[0]) == fi.params[1], fi.site(), fi.fq,
+                  "fixing a branch input always evaluates the branch on it (weights or the tensor's content may have changed since the last time)",
+                  f"{len(calls)} call(s) of self.branch.fix_input" + (f" when {skip}" if skip else ""), f"{len(calls)} fix_input calls")
 
 
 def r5_meshgrid(repo: Repo, rep):
@@ -408,6 +430,7 @@ def run(repo: Repo, rep):
     r2_reshape_agreement(repo, rep)
     r3_fast_path(repo, rep)
     r4_branch_cache(repo, rep)
+    r4b_fix_always(repo, rep)
     r5_meshgrid(repo, rep)
 
 
